@@ -728,8 +728,13 @@ def graph_options(rng, n, edges, rich=True):
     lc = rand_label_colors(rng)
     if lc is not None and not ('probs' in o and 'labels' not in o and lc[0] == 'D'):
         o['label_colors'] = lc
-    if rng.random() < 0.3:
+    r = rng.random()
+    if r < 0.3:
         o['node_order'] = rng.sample(range(n), n)
+    elif r < 0.36:
+        o['node_order'] = rng.sample(range(n), rng.randrange(0, n))        # a subset
+    elif r < 0.42:
+        o['node_order'] = [rng.randrange(n) for _ in range(rng.randrange(1, n + 3))]   # with repeats
     if rng.random() < 0.3:
         o['seeds'] = rng.sample(range(n), rng.randrange(0, n + 1))
         if o['seeds'] and rng.random() < 0.4:
@@ -831,7 +836,7 @@ def gen_graph_cases(ctx):
                 'alias': rng.random() < 0.1}
         if rng.random() < 0.7:
             desc['names'] = name_desc(rng, n)
-            desc['names_array'] = rng.random() < 0.3
+            desc['names_array'] = rng.choice([False, False, True, 'str'])
         r = rng.random()
         if r < 0.12 and n >= 3 and es:
             desc['position'] = None
@@ -909,20 +914,24 @@ def gen_bigraph_cases(ctx):
         nr, nc = rng.randrange(1, 7), rng.randrange(1, 7)
         es = graphs.random_edges(rng, nr, rng.choice([0.2, 0.5, 0.8]), m=nc)
         wts = [rng.choice([1, 2, 3, 0.5]) for _ in es]
-        dtype = rng.choice(['float', 'float', 'int', 'bool'])
+        signed = rng.random() < 0.15
+        if signed:
+            wts = [rng.choice([1, -1, 2, -0.5]) for _ in es]
+        dtype = 'float' if signed else rng.choice(['float', 'float', 'int', 'bool'])
         if dtype != 'float':
             wts = [max(1, int(x)) for x in wts]
         indptr, indices, data = csr_parts(rng, nr, nc, es, wts, zeros=rng.choice([0, 0, 0.2]),
                                           shuffle=rng.random() < 0.3)
         o = bigraph_options(rng, nr, nc, es)
-        if not es:
-            o['reorder'] = False
+        if not es or signed:
+            o['reorder'] = False        # Louvain (external) refuses an empty or signed matrix
         desc = {'f': 'visualize_bigraph', 'shape': [nr, nc], 'indptr': indptr, 'indices': indices, 'data': data,
                 'dtype': dtype, 'opts': o, 'file': rng.random() < 0.25, 'alias': rng.random() < 0.1}
         if rng.random() < 0.7:
             desc['names_row'] = name_desc(rng, nr)
         if rng.random() < 0.7:
             desc['names_col'] = name_desc(rng, nc)
+        desc['names_array'] = rng.choice([False, False, True, 'str'])
         descs.append(desc)
         ctx.count('bigraph:random')
     return descs
@@ -969,6 +978,7 @@ def gen_dendro_cases(ctx):
                 'alias': rng.random() < 0.1}
         if rng.random() < 0.8:
             desc['names'] = name_desc(rng, n)
+            desc['names_array'] = rng.choice([False, False, True, 'str'])
         descs.append(desc)
         ctx.count('dendrogram:n%d' % n)
     return descs
@@ -1111,7 +1121,7 @@ def degenerate_bigraph_descs():
     add({'labels_col': ['L', [0, 1]]})
     add({'labels_col': ['A', [0, -1, 2]], 'label_colors': ['D', []]})
     add({'probs_row': ['dense', 2, [[], []]]})
-    add({'probs_col': ['dense', 2, [[[0, 1]], [[0, 0.5], [1, 0.5]], []], 'label_colors': ['D', [[0, 'red']]]})
+    add({'probs_col': ['dense', 2, [[[0, 1]], [[0, 0.5], [1, 0.5]], []]], 'label_colors': ['D', [[0, 'red']]]})
     add({'probs_row': ['dense', 2, [[[0, 0.5], [1, 0.5]]]]})
     add({'edge_labels': [[2, 0, 1]]})
     add({'edge_labels': [[0, 3, 1]]})
@@ -1237,6 +1247,8 @@ def option_matrix_descs():
              'names_col': _names('c&1', '', '\ud83d\ude00') if k % 3 != 1 else None,
              'names_array': [False, True, 'str'][k % 3], 'sig': {'stream': 'option-matrix'}}
         d.update(b1)
+        if oo['reorder']:       # Louvain (external) refuses signed weights
+            d['data'] = [abs(x) for x in b1['data']]
         out.append(d)
     # dendrogram
     D = [[1, 2, 1, 2], [0, 4, 1.5, 3], [3, 5, 2, 4]]
